@@ -94,13 +94,16 @@ func c03Helpers(p *Prog, r *Report) {
 		args := make([]aval, len(h.fn.Params))
 		args[len(args)-1] = ASlice{bk: bk, off: 0, len: n, cap: n}
 		outs := ai.evalFunc(h.fn, args, nil)
-		ok, why := len(outs) == 1 && outs[0].err == "", ""
+		ok, why := len(outs) == 1 && outs[0].err == "" && ai.procErr == "", ""
 		if !ok {
 			why = fmt.Sprintf("%d paths", len(outs))
 			for _, o := range outs {
 				if o.err != "" {
 					why = o.err
 				}
+			}
+			if ai.procErr != "" {
+				why = ai.procErr
 			}
 		}
 		if ok {
@@ -276,12 +279,40 @@ func c03Arms(p *Prog, r *Report, enc *ssa.Function) {
 		r.Check(okOps && okDisp, "C03.R7", cons+" is opcode ++ displacement", p.Pos(posOf(ret)), "opcode bytes first, displacement bytes second",
 			"the re-encoded instruction is not assembled as opcode bytes followed by displacement bytes (operands swapped or replaced): the relocated instruction is garbage")
 		// written on the way, by a writer of this width, from the old displacement and the correction
+		kk := NewKeyer(enc)
+		signOK := func(v ssa.Value) bool {
+			form := map[string]int64{}
+			var konst int64
+			linForm(kk, v, 1, form, &konst, 0)
+			if form[kk.Key(valP)] != 1 || form[kk.Key(addP)] != 1 {
+				return false
+			}
+			if !fresh {
+				return true
+			}
+			// widened: minus the growth of the displacement (new width − old width) and of the opcode (new − old length)
+			var lenNeg, lenPos int64
+			for key, c := range form {
+				if strings.HasPrefix(key, "len(") {
+					if c < 0 {
+						lenNeg += c
+					} else {
+						lenPos += c
+					}
+				}
+			}
+			return form[kk.Key(lenP)] == 1 && lenNeg == -2 && lenPos == 1
+		}
 		var badWidth string
 		isWrite := func(j ssa.Instruction) bool {
 			switch x := j.(type) {
 			case *ssa.Store:
 				if ia, ok := x.Addr.(*ssa.IndexAddr); ok && resolveLocal(ia.X) == disp {
 					if dependsOn(x.Val, isVal) && dependsOn(x.Val, isAdd) {
+						if !signOK(x.Val) {
+							badWidth = "the stored value is not old displacement + correction" + map[bool]string{true: " − growth", false: ""}[fresh]
+							return false
+						}
 						if width != 1 {
 							badWidth = fmt.Sprintf("a single byte is stored in the %d-byte arm", width)
 							return false
@@ -300,6 +331,10 @@ func c03Arms(p *Prog, r *Report, enc *ssa.Function) {
 					return false
 				}
 				if !dependsOn(args[len(args)-1], isVal) || !dependsOn(args[len(args)-1], isAdd) {
+					return false
+				}
+				if !signOK(args[len(args)-1]) {
+					badWidth = "the written value is not old displacement + correction" + map[bool]string{true: " − growth of displacement and opcode", false: ""}[fresh]
 					return false
 				}
 				if int64(h.width/8) != width {
@@ -583,6 +618,16 @@ func c03TargetOffsets(p *Prog, r *Report) {
 			continue
 		}
 		nInF := 0
+		type tcmp struct {
+			bo    *ssa.BinOp
+			relC  int64
+			konst int64
+			bound bool
+		}
+		var tcmps []tcmp
+		defer func(f *ssa.Function) {
+			c03RelocateIffOutside(p, r, f, tcmps, func(t tcmp) (*ssa.BinOp, int64, int64, bool) { return t.bo, t.relC, t.konst, t.bound })
+		}(f)
 		eachInstr(f, func(i ssa.Instruction) {
 			bo, ok := i.(*ssa.BinOp)
 			if !ok || !isBool(bo.Type()) || !isIntegerType(bo.X.Type()) {
@@ -619,6 +664,18 @@ func c03TargetOffsets(p *Prog, r *Report) {
 			}
 			nInF++
 			n++
+			if (relC == 1 || relC == -1) && lenC == relC && posC == relC && posLeaves == 1 {
+				// T = displacement + position + length compared with nothing else (a constant) or with one bound
+				rest := 0
+				for key, c := range form {
+					if c != 0 && !rel[key] && !strings.Contains(key, "Len") && c != relC {
+						rest++
+					}
+				}
+				if rest <= 1 {
+					tcmps = append(tcmps, tcmp{bo, relC, konst, rest == 1})
+				}
+			}
 			ok2 := (relC == 1 || relC == -1) && lenC == relC && posC == relC && posLeaves == 1 && others <= 3
 			r.Check(ok2, "C03.R9", "branch target offset compared in "+shortName(f)+" #"+itoa2(nInF), p.Pos(posOf(bo)), "displacement + position + length, each once",
 				"a comparison that decides whether a prologue branch stays inside the copied bytes (or enters the overwritten prefix) is not made on displacement + position + instruction length: branches are relocated that must not be (or the reverse), or a branch into the overwritten jump is not refused")
@@ -844,5 +901,139 @@ func c03TailKept(p *Prog, r *Report, enc *ssa.Function) {
 	}
 	if n == 0 {
 		r.Und("C03.R7", "re-encoded instruction tail", "", "no function of package patch returns the re-encoder's result")
+	}
+}
+
+// c03OriginRecorded: C03.R10 — the placeholder the user designates with Origin(&f) is the one handed to the trampoline
+// builder: the field whose value the apply functions pass to package proxy as the trampoline argument is stored, from its
+// parameter, by every exported Origin method (on every way to its return).
+func c03OriginRecorded(p *Prog, r *Report) {
+	var fld *types.Var
+	for _, f := range p.FuncsIn("") {
+		eachInstr(f, func(i ssa.Instruction) {
+			cl, ok := i.(*ssa.Call)
+			if !ok {
+				return
+			}
+			cal := staticCallee(cl.Common())
+			if cal == nil || relPkg(cal) != "internal/proxy" || len(cl.Call.Args) < 3 {
+				return
+			}
+			// the trampoline argument: the last interface-typed argument
+			a := cl.Call.Args[len(cl.Call.Args)-1]
+			if _, fv, ok := fieldRef(resolveLocal(a)); ok && fv != nil && types.IsInterface(fv.Type()) {
+				fld = fv
+			}
+		})
+	}
+	if fld == nil {
+		r.Und("C03.R10", "placeholder field", "", "no field of a mocker is passed to package proxy as the trampoline argument")
+		return
+	}
+	n := 0
+	for _, f := range p.FuncsIn("") {
+		if f.Object() == nil || f.Name() != "Origin" || f.Signature.Recv() == nil || f.Blocks == nil || f.Signature.Params().Len() != 1 {
+			continue
+		}
+		// a forwarder (cached mockers) hands the parameter on to another Origin
+		prm := f.Params[len(f.Params)-1]
+		isRec := func(j ssa.Instruction) bool {
+			switch x := j.(type) {
+			case *ssa.Store:
+				fa, ok := x.Addr.(*ssa.FieldAddr)
+				return ok && fieldVar(fa.X.Type(), fa.Field) == fld && resolveLocal(x.Val) == ssa.Value(prm)
+			case ssa.CallInstruction:
+				c := x.Common()
+				name := ""
+				if c.IsInvoke() {
+					name = c.Method.Name()
+				} else if cal := staticCallee(c); cal != nil {
+					name = cal.Name()
+				}
+				if name == "Origin" {
+					for _, a := range c.Args {
+						if resolveLocal(a) == ssa.Value(prm) {
+							return true
+						}
+					}
+				}
+			}
+			return false
+		}
+		n++
+		okAll := true
+		for _, ret := range returnsOf(f) {
+			if !passedBefore(f, ret, isRec, nil) {
+				okAll = false
+			}
+		}
+		r.Check(okAll, "C03.R10", "placeholder recorded by "+shortName(f), p.Pos(f.Pos()), fld.Name()+" = the argument (or forwarded to Origin)",
+			"Origin(&f) does not record the placeholder: the mock is applied without a trampoline, so the user's placeholder keeps its own body and calling it does not run the original function")
+	}
+	if n == 0 {
+		r.Und("C03.R10", "Origin methods", "", "no exported Origin method found")
+	}
+}
+
+// c03RelocateIffOutside: C03.R9 clause — in the function that hands a prologue instruction to the re-encoder, the
+// displacement is corrected exactly when the branch target lies outside the copied block [0, size): the tests on the target
+// offset T are `T < 0` and `T >= size` (or their complements) with no slack, and the re-encoder cannot be reached when
+// both are false.
+func c03RelocateIffOutside[T any](p *Prog, r *Report, f *ssa.Function, cmps []T, get func(T) (*ssa.BinOp, int64, int64, bool)) {
+	enc := p.Fn("internal/bytecode", "EncodeAddress")
+	var encCall *ssa.Call
+	eachInstr(f, func(i ssa.Instruction) {
+		if cl, ok := i.(*ssa.Call); ok && enc != nil && staticCallee(cl.Common()) == enc {
+			encCall = cl
+		}
+	})
+	if encCall == nil || len(cmps) == 0 {
+		return
+	}
+	assign := map[ssa.Value]bool{}
+	okExact := true
+	why := ""
+	for _, c := range cmps {
+		bo, relC, konst, bound := get(c)
+		// relC*T (+ −relC*B) + konst  op  0   →  T [−B] + k  op'  0
+		op, k := bo.Op, konst
+		if relC == -1 {
+			k = -konst
+			switch op {
+			case token.LSS:
+				op = token.GTR
+			case token.LEQ:
+				op = token.GEQ
+			case token.GTR:
+				op = token.LSS
+			case token.GEQ:
+				op = token.LEQ
+			}
+		}
+		// "outside" when true: below zero (no bound) — T<0 ; at or above the bound — T−B>=0
+		var outsideWhen, known bool
+		switch {
+		case !bound && ((op == token.LSS && k == 0) || (op == token.LEQ && k == 1)):
+			outsideWhen, known = true, true
+		case !bound && ((op == token.GEQ && k == 0) || (op == token.GTR && k == 1)):
+			outsideWhen, known = false, true
+		case bound && ((op == token.GEQ && k == 0) || (op == token.GTR && k == 1)):
+			outsideWhen, known = true, true
+		case bound && ((op == token.LSS && k == 0) || (op == token.LEQ && k == 1)):
+			outsideWhen, known = false, true
+		}
+		if !known {
+			okExact = false
+			why = "a test on the branch target is off by one (or not one of T < 0, T >= size) at " + p.Pos(posOf(bo))
+			continue
+		}
+		assign[bo] = !outsideWhen // the value the comparison has when the target is inside
+	}
+	r.Check(okExact, "C03.R9", "tests on the branch target in "+shortName(f)+" are exactly T < 0 and T >= size", p.Pos(f.Pos()), "no slack in either bound",
+		why+": a branch to the first byte behind the copied block (or to its first byte) is treated as internal (or external) when it is not, and is copied with a stale displacement")
+	if okExact {
+		reach := reachableUnder(f, assign)[encCall.Block()]
+		r.Check(!reach, "C03.R9", "displacement corrected in "+shortName(f)+" only for targets outside the copied block", p.Pos(posOf(encCall)), "re-encoder unreachable when 0 <= T < size",
+			"the re-encoder is reached for a branch whose target lies inside the copied block: an internal branch of the prologue is re-aimed at the original function and leaves the placeholder in mid-prologue")
 	}
 }
